@@ -277,17 +277,17 @@ func (c *Case) allRows() []Row {
 // ---------------------------------------------------------------- model
 
 type modelOut struct {
-	Rows    []Row  `json:"rows"`
+	Rows    []Row   `json:"rows"`
 	Err     *string `json:"err"`
-	Stats   *Stats `json:"stats"`
-	Stopped bool   `json:"stopped"`
-	Told    bool   `json:"told"`
+	Stats   *Stats  `json:"stats"`
+	Stopped bool    `json:"stopped"`
+	Told    bool    `json:"told"`
 	Web     *struct {
-		Status string `json:"status"`
-		HTTP   int    `json:"http"`
-		Rows   []Row  `json:"rows"`
+		Status string  `json:"status"`
+		HTTP   int     `json:"http"`
+		Rows   []Row   `json:"rows"`
 		Err    *string `json:"err"`
-		Stats  *Stats `json:"stats"`
+		Stats  *Stats  `json:"stats"`
 	} `json:"web"`
 }
 
@@ -523,6 +523,16 @@ func (rn *runner) check(c *Case, idx uint64, nontrivial bool) error {
 		res.Hit("impl:incomplete")
 	}
 	violated := !ok && !impl.told()
+	if !violated && !ok {
+		// cluster queries: being told is per partition.  A partition whose rows did not all reach
+		// the caller must be LISTED in MissingPartitions — another partition's failure does not
+		// excuse it (the model's cluster_partition_told / cluster_success_needs_end_of_results)
+		if p, bad := partitionNotListed(c, impl); bad {
+			violated = true
+			why = fmt.Sprintf("rows of partition %d are missing but the partition is not listed as missing (%s)", p, why)
+			res.Hit("impl:partition-not-listed")
+		}
+	}
 	if c.Mode == "web" {
 		// HTTP: an incomplete result must not be answered (now or from the cache) with 200 —
 		// unless the body's statistics list the missing partitions (cluster)
@@ -614,6 +624,32 @@ func (rn *runner) check(c *Case, idx uint64, nontrivial bool) error {
 			Detail: c.Mode + ": " + generalise(disagree), Index: idx})
 	}
 	return nil
+}
+
+// partitionNotListed: a flat cluster query (modes cluster / remote, the cluster is the whole plan)
+// that returned no error and was not stopped by the caller: the first partition with expected
+// rows absent from the result that MissingPartitions does not list.
+func partitionNotListed(c *Case, o *Outcome) (int, bool) {
+	if (c.Mode != "cluster" && c.Mode != "remote") || c.Plan["op"] != "cluster" || jBool(c.Plan, "unflat") {
+		return 0, false
+	}
+	if o.Err != "" || o.Stopped || o.Stats == nil || c.Fault.Kind == "stopAt" {
+		return 0, false
+	}
+	have := map[string]bool{}
+	for _, r := range o.Rows {
+		have[fmt.Sprintf("%d/%d/%d", r.P, r.K, r.T)] = true
+	}
+	listed := map[int]bool{}
+	for _, p := range o.Stats.Missing {
+		listed[p] = true
+	}
+	for _, r := range c.Expect {
+		if !have[fmt.Sprintf("%d/%d/%d", r.P, r.K, r.T)] && !listed[r.P] {
+			return r.P, true
+		}
+	}
+	return 0, false
 }
 
 // neighbour extracts the outcome of the query coalesced with the case's query (db mode) and
